@@ -556,6 +556,48 @@ def run_witness(rep, ctx):
            p.stdout[-400:] if not ok else "all witnesses behave", "witness/src/lib.rs")
 
 
+def wrong_type_needs_exists(facts, rep, rule, D):
+    """R12.6: `is_dir()` / `is_file()` answer false for a missing entry as well as for one of the other type.  An error of a class
+    other than FileNotFound that is built where the only thing known about the entry is that answer classifies a missing entry as
+    "not a directory" / "not a file"; the refusal needs the entry's existence on the same path (exists() == true, or the positive
+    answer of the other type test).  Expected count on a conforming tree: the sites listed, each established."""
+    from ..pathrules import sname as _sn, peel as _pl
+    n = 0
+    for b in facts.bodies:
+        if b.file.startswith("tests") or "/test" in b.file or b.file.endswith("test_macros.rs"):
+            continue
+        for blk in b.blocks:
+            if blk.cleanup:
+                continue
+            for st in blk.stmts:
+                if not (st.kind == "assign" and st.rv.kind == "agg" and st.rv.agg.get("adt") == "error::VfsErrorKind" and
+                        st.rv.agg.get("variant") != "FileNotFound"):
+                    continue
+                gs = D.guards(b, blk.idx)
+                for g in gs:
+                    if not (g[0] == "bool" and g[2] is False):
+                        continue
+                    t = _pl(g[1])
+                    if not (t[0] == "call" and isinstance(t[1], str) and _sn(t[1]) in ("is_dir", "is_file") and t[2]):
+                        continue
+                    subj = norm(t[2][0])
+                    est = False
+                    for h in gs:
+                        th = _pl(h[1]) if len(h) > 1 and isinstance(h[1], tuple) else None
+                        if h is g or th is None or th[0] != "call" or not isinstance(th[1], str) or not th[2] or norm(th[2][0]) != subj:
+                            continue
+                        if h[0] == "bool" and h[2] is True and _sn(th[1]) in ("exists", "is_dir", "is_file"):
+                            est = True
+                        if h[0] == "variant" and h[2] == "ok" and _sn(th[1]) in ("metadata", "symlink_metadata"):
+                            est = True
+                    n += 1
+                    rep.ob(rule, b.id, "%s refusal under !%s(): the entry is known to exist" % (st.rv.agg.get("variant"), _sn(t[1])), est,
+                           "" if est else "%s is answered where only `%s() == false` is known about %s: that is also the answer for a "
+                           "missing entry, which is then reported as %s instead of FileNotFound"
+                           % (st.rv.agg.get("variant"), _sn(t[1]), fmt(subj)[:50], st.rv.agg.get("variant")), st.line)
+    return n
+
+
 def run(facts, rep, tier, ctx):
     ws = World(facts, False)
     run_world(facts, rep, ws, {"fallible": 25, "with_path": 25})
@@ -575,6 +617,7 @@ def run(facts, rep, tier, ctx):
     # every AlreadyExists of every operation as "a directory is there"
     from .c20 import tolerated_kind_sites
     tolerated_kind_sites(facts, rep, "R12.3k", D)
+    wrong_type_needs_exists(facts, rep, "R12.6", D)
     # R12.3p which class a refusal of the path type has follows from what the filesystem reported, never from the path string
     # alone: an "Other" for the root replaces the DirectoryExists / NotSupported the backend would have given
     from ..pathrules import PathRules as _PR12
